@@ -12,6 +12,12 @@ fold or a sloppy lexer would rewrite, together with the names they would be rewr
 inside a short evaluation HISTORY on one engine (a reused Statement on another document; the SAME host document object
 evaluated, updated in place by the host, evaluated again - same or freshly parsed Statement) and the LAST result is
 the one compared.
+Names also come from the vocabulary a Python implementation uses for its own parameters (value, self, context, engine,
+args, kwargs, name, key ...); values include the ones the host language takes for equal (1 / true / 1.0, 0 / false / 0.0 /
+-0.0, '' / null) side by side - as literals, document leaves and arguments of repeated calls of one def-ined function /
+lambda - and results that hold lazy sequences, produced twice.  Results are compared with their types at every depth
+(`typed`): Python's `==` is never used on results.  An evaluation that RAISES (any exception class: TypeError,
+AttributeError, KeyError ...) where the references return a value is an oracle failure like any other difference.
 Oracle (failing input): real differs from ref and the model does not side with real.
 Mismatch (tie broken): the model differs from real although ref agrees with real (a slip in the
 model), or ref is the odd one out (a slip in the transcription)."""
@@ -625,7 +631,7 @@ def work(args):
     rng = common.make_rng(seed, 'C04/%d' % idx)
     drv = common.Driver() if use_model else None
     out = dict(cases=[], failures=[], n=0, traces=0, outcome={}, errs={}, depth={}, size={}, types={}, constructs={},
-               pairs={}, ood_ref=0, ood_model=0, parse_diff=[], sample=None, modes={}, names={}, known={})
+               pairs={}, ood_ref=0, ood_model=0, parse_diff=[], sample=None, modes={}, names={}, known={}, values={})
     try:
         batch = []
         for _ in range(n_cases):
@@ -665,6 +671,8 @@ def work(args):
             bump(out['modes'], info['mode'])
             for cls in evalgen.name_classes(ast):
                 bump(out['names'], cls)
+            for cls in evalgen.value_classes(ast, doc):
+                bump(out['values'], cls)
             if f and f[2]:
                 bump(out['known'], f[2])
                 if not any(k == f[2] for _, k, _, _ in out['failures']):
@@ -703,10 +711,12 @@ def run(env, res):
     drv = env['driver']
     use_model = drv is not None
     res.rule = ('type-directed programs of the fragment (generator depth <= 4 quick / <= 6 thorough) over a random JSON-like '
-                'document bound to `$`: 25% scoping scenarios with random parts, 20% lists of independent expressions, the '
+                'document bound to `$`: 30% scoping scenarios with random parts, 20% lists of independent expressions, the '
                 'rest typed expressions; every binding construct is followed by uses of what it bound and by reads of names '
                 'bound elsewhere and of RELATIVES of bound names (snake/camel, trailing / leading underscore, case, digits); '
-                'names of variables / keywords / functions / keys from adversarial pools; 50% single evaluations, 20% a reused '
+                'names of variables / keywords / functions / keys from adversarial pools (also the host implementation\'s own '
+                'vocabulary: value, self, context, args ..); scalars that Python takes for equal (1 / true / 1.0, 0 / false / 0.0 / '
+                '-0.0) as literals, document leaves and arguments of repeated calls; 50% single evaluations, 20% a reused '
                 'Statement after another document, 30% the same host document object mutated in place between evaluations '
                 '(same / fresh Statement); distinct = distinct (text, document); non-trivial = the real evaluation returns '
                 'a value and at least one reference makes a prediction')
@@ -732,7 +742,7 @@ def run(env, res):
     with multiprocessing.Pool(nproc) as pool:
         results = pool.map(work, jobs, chunksize=1)
     hist = dict(outcome={}, real_error_classes={}, ast_depth={}, ast_size={}, result_types={}, constructs={},
-                evaluation_history={}, names_by_class={}, known_finding_hits={})
+                evaluation_history={}, names_by_class={}, known_finding_hits={}, value_situations={})
     pairs, ood_ref, ood_model, n, parse_diff = {}, 0, 0, 0, []
     for out in results:
         for sig, nt in out['cases']:
@@ -750,7 +760,7 @@ def run(env, res):
                          (out['depth'], hist['ast_depth']), (out['size'], hist['ast_size']),
                          (out['types'], hist['result_types']), (out['constructs'], hist['constructs']), (out['pairs'], pairs),
                          (out['modes'], hist['evaluation_history']), (out['names'], hist['names_by_class']),
-                         (out['known'], hist['known_finding_hits'])):
+                         (out['known'], hist['known_finding_hits']), (out['values'], hist['value_situations'])):
             for k, v in src.items():
                 dst[str(k)] = dst.get(str(k), 0) + v
     if parse_diff:
@@ -781,11 +791,16 @@ LEVEL_TEXT = ('Lean 4 theorems, for ALL expressions, contexts, documents and fue
               '`coll.name` = `coll.select($.name)`, more fuel never changes a definite outcome; names are data '
               '(let_names_verbatim, kwarg_names_verbatim, def_names_verbatim: for ALL names, a let / keyword argument / def is '
               'visible exactly under its own normal form - `$`-prefix and `$`=`$1` for variables, trailing underscores for '
-              'functions - and invisible to every other name).  The interpreter is tied to the '
+              'functions - and invisible to every other name); a call of a def-ined function is the body evaluated on the '
+              'argument VALUES of that call and of nothing else (def_call_own_args, def_call_pure, def_calls_independent), values '
+              'being compared structurally, so that 1 / true / 1.0 are three arguments (def_identity_faithful / _injective).  '
+              'The interpreter is tied to the '
               'code by running generated programs (typed generator, scoping scenarios, reads of names bound elsewhere) on the '
               'real engine, on the compiled model and on an independent plain-Python transcription, comparing finalised results / '
-              'exception classes three ways; names come from pools a normalisation would rewrite, and half of the programs are '
-              'the last step of an evaluation history on one engine (reused Statement, host document mutated in place).')
+              'exception classes three ways (types compared at every depth, floats by their bits); names come from pools a '
+              'normalisation would rewrite and from the host implementation\'s own vocabulary, values include the ones Python '
+              'takes for equal (1 / true / 1.0 ...) as literals, document leaves and arguments of repeated calls, and half of the '
+              'programs are the last step of an evaluation history on one engine (reused Statement, host document mutated in place).')
 LEVEL_NOTE = ('trusted: Lean kernel; the hand-written interpreter Yaql/Model/Eval.lean (reusing the value semantics of Model/Seq.lean '
               'and the name normalisation of Model/Context.lean); harness/evalref.py; the renderer (every text is parsed back by '
               'the engine under test and compared with the AST).  "frame" holds by construction of the representation (contexts '
